@@ -227,14 +227,21 @@ Section Wind.
     apply (same_store_flag _ _ _ true G).
   Qed.
 
+  Lemma wound_last st b : last_id st <= last_id (wound st b) /\ b_id b <= last_id (wound st b).
+  Proof.
+    unfold wound, bc_reorg. cbn [last_id].
+    destruct (N.leb_spec (b_id b) (last_id st)); cbn [last_id]; lia.
+  Qed.
+
   (* ---------------- unwind_all ---------------- *)
   Lemma unwind_all_ok pre : forall st rest x,
     WInv c U st (pre ++ rest) x -> (rest <> [] \/ pre = []) ->
     exists st', unwind_all c st (hashes pre) = Ok st' /\ WInv c U st' rest x
-                /\ same_store (blocks st) (blocks st') /\ ring_empty st' = ring_empty st.
+                /\ same_store (blocks st) (blocks st') /\ ring_empty st' = ring_empty st
+                /\ last_id st' = last_id st.
   Proof.
     induction pre as [|t pre IH]; intros st rest x W Hne; cbn [hashes map unwind_all].
-    - exists st. split; [reflexivity|]. split; [exact W|]. split; [apply same_store_refl|reflexivity].
+    - exists st. split; [reflexivity|]. split; [exact W|]. split; [apply same_store_refl|split; reflexivity].
     - destruct Hne as [Hne|]; [|discriminate].
       rewrite (w_lc _ _ _ _ _ W t (or_introl eq_refl)). cbn [s_b].
       assert (exists p rest', pre ++ rest = p :: rest') as (p & rest' & E).
@@ -242,8 +249,9 @@ Section Wind.
       cbn [app] in W. rewrite E in W.
       rewrite (unwind_block_eq _ _ _ _ _ W). cbn [bind].
       pose proof (unwound_inv _ _ _ _ _ W) as W'. rewrite <- E in W'.
-      destruct (IH _ _ _ W' (or_introl Hne)) as (st' & H1 & H2 & H3 & H4).
-      exists st'. split; [exact H1|]. split; [exact H2|]. split; [|rewrite H4; reflexivity].
+      destruct (IH _ _ _ W' (or_introl Hne)) as (st' & H1 & H2 & H3 & H4 & H5).
+      exists st'. split; [exact H1|]. split; [exact H2|].
+      split; [|split; [rewrite H4; reflexivity|rewrite H5; reflexivity]].
       eapply same_store_trans; [|exact H3]. unfold unwound; cbn [blocks].
       apply (same_store_flag _ _ _ false (w_lc _ _ _ _ _ W t (or_introl eq_refl))).
   Qed.
@@ -255,29 +263,37 @@ Section Wind.
     linked_up U tb cur ->
     exists st' r, wind_list c st (hashes tb) wnd = Ok (st', r)
       /\ same_store (blocks st) (blocks st') /\ ring_empty st' = ring_empty st
-      /\ ((forallb b_valid tb = true /\ r = None /\ WInv c U st' (rev tb ++ cur) x)
+      /\ last_id st <= last_id st'
+      /\ ((forallb b_valid tb = true /\ r = None /\ WInv c U st' (rev tb ++ cur) x
+           /\ (forall y, In y tb -> b_id y <= last_id st'))
           \/ (exists tb1 bad tb2, tb = tb1 ++ bad :: tb2 /\ forallb b_valid tb1 = true
                 /\ b_valid bad = false /\ r = Some (rev (hashes tb1) ++ wnd)
                 /\ WInv c U st' (rev tb1 ++ cur) x)).
   Proof.
     induction tb as [|b tb IH]; intros st cur wnd x W Hst Hl; cbn [hashes map wind_list].
     - exists st, None. split; [reflexivity|]. split; [apply same_store_refl|]. split; [reflexivity|].
-      left. split; [reflexivity|]. split; [reflexivity|exact W].
+      split; [lia|].
+      left. split; [reflexivity|]. split; [reflexivity|]. split; [exact W|intros y []].
     - destruct (sget_get _ _ _ (Hst b (or_introl eq_refl))) as (f & G). rewrite G. cbn [s_b].
       destruct (b_valid b) eqn:Hv.
       + rewrite (wind_block_eq _ _ _ G). cbn [bind].
         destruct Hl as [Hl1 Hl2].
         pose proof (wound_inv _ _ _ _ _ W G Hv Hl1) as W'.
         destruct (wound_same _ _ _ G) as (S1 & S2 & _).
-        destruct (IH (wound st b) (b :: cur) (b_hash b :: wnd) x W') as (st' & r & H1 & H2 & H3 & H4); auto.
+        destruct (wound_last st b) as [L1 L2].
+        destruct (IH (wound st b) (b :: cur) (b_hash b :: wnd) x W') as (st' & r & H1 & H2 & H3 & H5 & H4); auto.
         { intros y Hy. rewrite <- S1. apply Hst. now right. }
         exists st', r. split; [exact H1|]. split; [eapply same_store_trans; eauto|]. split; [congruence|].
-        destruct H4 as [(A1 & A2 & A3)|(tb1 & bad & tb2 & A1 & A2 & A3 & A4 & A5)].
-        * left. cbn [forallb rev]. rewrite Hv, A1, <- app_assoc. auto.
+        split; [lia|].
+        destruct H4 as [(A1 & A2 & A3 & A4)|(tb1 & bad & tb2 & A1 & A2 & A3 & A4 & A5)].
+        * left. cbn [forallb rev]. rewrite Hv, A1, <- app_assoc.
+          split; [reflexivity|]. split; [exact A2|]. split; [exact A3|].
+          intros y [<-|Hy]; [lia|auto].
         * right. exists (b :: tb1), bad, tb2. cbn [forallb rev hashes map app].
           rewrite Hv, A2, <- !app_assoc. cbn [app]. subst tb.
           split; [reflexivity|]. split; [reflexivity|]. split; [exact A3|]. split; [exact A4|exact A5].
       + exists st, (Some wnd). split; [reflexivity|]. split; [apply same_store_refl|]. split; [reflexivity|].
+        split; [lia|].
         right. exists [], b, tb. cbn [app forallb rev hashes map].
         split; [reflexivity|]. split; [reflexivity|]. split; [exact Hv|]. split; [reflexivity|exact W].
   Qed.
@@ -324,7 +340,8 @@ Section Wind.
     exists st' ok, validate c st (hashes (b :: newtl)) (hashes oldb) = Ok (st', ok)
       /\ same_store (blocks st) (blocks st') /\ ring_empty st' = ring_empty st
       /\ ok = (gt_count_valid st (b_prev b) (b_gt b) && forallb b_valid (b :: newtl))
-      /\ WInv c U st' (if ok then (b :: newtl) ++ common else oldb ++ common) x.
+      /\ WInv c U st' (if ok then (b :: newtl) ++ common else oldb ++ common) x
+      /\ last_id st <= last_id st' /\ (ok = true -> b_id b <= last_id st').
   Proof.
     intros W Hst Hl Hcm.
     set (newb := b :: newtl) in *.
@@ -337,24 +354,26 @@ Section Wind.
     rewrite <- (gt_count_valid_same st st0 _ _ S0).
     destruct (gt_count_valid st (b_prev b) (b_gt b)) eqn:Egt; cbn [negb andb].
     2:{ exists st0, false. split; [reflexivity|]. split; [exact S0|]. split; [reflexivity|].
-        split; [reflexivity|exact W0]. }
-    destruct (unwind_all_ok oldb st0 common x W0) as (st1 & E1 & W1 & S1 & R1).
+        split; [reflexivity|]. split; [exact W0|]. split; [cbn [st0 set_steps last_id]; lia|discriminate]. }
+    destruct (unwind_all_ok oldb st0 common x W0) as (st1 & E1 & W1 & S1 & R1 & L1).
     { destruct Hcm as [?|[? _]]; auto. }
+    assert (L0 : last_id st1 = last_id st) by (rewrite L1; reflexivity). clear L1.
     rewrite E1. cbn [bind]. rewrite rev_hashes.
-    destruct (wind_list_ok (rev newb) st1 common [] x W1) as (st2 & r & E2 & S2 & R2 & D2).
+    destruct (wind_list_ok (rev newb) st1 common [] x W1) as (st2 & r & E2 & S2 & R2 & L2 & D2).
     { intros y Hy. rewrite <- S1. apply Hst. now apply in_rev. }
     { now apply linked_dn_up. }
     rewrite E2. cbn [bind].
-    destruct D2 as [(A1 & -> & W2)|(tb1 & bad & tb2 & A1 & A2 & A3 & -> & W2)].
+    destruct D2 as [(A1 & -> & W2 & Lb)|(tb1 & bad & tb2 & A1 & A2 & A3 & -> & W2)].
     - rewrite forallb_rev in A1. rewrite rev_involutive in W2.
       exists (set_steps st2 (Nlen (hashes oldb) + Nlen (hashes newb))), true.
       split; [reflexivity|]. split; [eapply same_store_trans; [exact S1|exact S2]|].
       split; [cbn [set_steps ring_empty]; rewrite R2, R1; reflexivity|]. split; [now rewrite A1|].
-      eapply WInv_ext; [..|exact W2]; reflexivity.
+      split; [eapply WInv_ext; [..|exact W2]; reflexivity|].
+      cbn [set_steps last_id]. split; [lia|]. intros _. apply Lb. apply -> in_rev. now left.
     - assert (Hf : forallb b_valid newb = false).
       { rewrite <- forallb_rev, A1. now apply forallb_app_false. }
       rewrite Hf. rewrite app_nil_r, rev_hashes.
-      destruct (unwind_all_ok (rev tb1) st2 common x W2) as (st3 & E3 & W3 & S3 & R3).
+      destruct (unwind_all_ok (rev tb1) st2 common x W2) as (st3 & E3 & W3 & S3 & R3 & L3).
       { destruct Hcm as [?|[_ Hn]]; [auto|right].
         unfold newb in A1. rewrite Hn in A1. cbn [rev app] in A1.
         destruct tb1 as [|? tb1]; [reflexivity|]. destruct tb1; discriminate. }
@@ -365,23 +384,25 @@ Section Wind.
       + cbn [hashes map].
         eexists (set_steps st3 _), false. split; [reflexivity|]. split; [exact S03|].
         split; [cbn [set_steps ring_empty]; rewrite R3, R2, R1; reflexivity|]. split; [reflexivity|].
-        eapply WInv_ext; [..|exact W3]; reflexivity.
+        split; [eapply WInv_ext; [..|exact W3]; reflexivity|].
+        cbn [set_steps last_id]. split; [lia|discriminate].
       + set (oldb := o :: oldb') in *.
         change (hashes oldb) with (b_hash o :: hashes oldb') at 5. cbv iota beta.
         change (b_hash o :: hashes oldb') with (hashes oldb). rewrite rev_hashes.
-        destruct (wind_list_ok (rev oldb) st3 common [] x W3) as (st4 & r4 & E4 & S4 & R4 & D4).
+        destruct (wind_list_ok (rev oldb) st3 common [] x W3) as (st4 & r4 & E4 & S4 & R4 & L4 & D4).
         { intros y Hy. rewrite <- S03. eapply w_lc_sget; [exact W|]. apply in_app_iff. left. now apply in_rev. }
         { apply linked_dn_up, chain_ok_linked_dn, (w_chain _ _ _ _ _ W). }
         rewrite E4. cbn [bind fst snd].
         assert (Hvo : forallb b_valid (rev oldb) = true).
         { apply forallb_forall. intros y Hy. apply in_rev in Hy.
           eapply chain_ok_valid; [apply (w_chain _ _ _ _ _ W)|]. apply in_app_iff. now left. }
-        destruct D4 as [(B1 & -> & W4)|(tc1 & bad' & tc2 & B1 & B2 & B3 & _)].
+        destruct D4 as [(B1 & -> & W4 & _)|(tc1 & bad' & tc2 & B1 & B2 & B3 & _)].
         * rewrite rev_involutive in W4.
           eexists (set_steps st4 _), false. split; [reflexivity|].
           split; [eapply same_store_trans; [exact S03|exact S4]|].
           split; [cbn [set_steps ring_empty]; rewrite R4, R3, R2, R1; reflexivity|]. split; [reflexivity|].
-          eapply WInv_ext; [..|exact W4]; reflexivity.
+          split; [eapply WInv_ext; [..|exact W4]; reflexivity|].
+          cbn [set_steps last_id]. split; [lia|discriminate].
         * exfalso. rewrite B1 in Hvo. rewrite (forallb_app_false _ _ _ _ B3) in Hvo. discriminate.
   Qed.
 End Wind.
